@@ -1,0 +1,60 @@
+//go:build verif
+
+// Add-only access for the verification harness (build tag "verif"). Nothing here changes
+// behaviour; the wrappers only make unexported constructors reachable.
+package p2p
+
+import (
+	"crypto/ecdsa"
+	"hash"
+	"io"
+	"net"
+
+	"github.com/zenon-network/go-zenon/p2p/discover"
+)
+
+// VerifNewFrameRW returns the RLPx frame reader/writer (newRLPXFrameRW) over conn with
+// caller-chosen secrets. aesKey and macKey must be valid AES key sizes (16/24/32 bytes).
+func VerifNewFrameRW(conn io.ReadWriter, aesKey, macKey []byte, egressMAC, ingressMAC hash.Hash) MsgReadWriter {
+	return newRLPXFrameRW(conn, secrets{AES: aesKey, MAC: macKey, EgressMAC: egressMAC, IngressMAC: ingressMAC})
+}
+
+// VerifReceiverEncHandshake runs the listening side of the encryption handshake
+// (receiverEncHandshake) over conn and, if it succeeds, returns a frame reader/writer keyed
+// with the negotiated secrets.
+func VerifReceiverEncHandshake(conn io.ReadWriter, prv *ecdsa.PrivateKey) (discover.NodeID, MsgReadWriter, error) {
+	sec, err := receiverEncHandshake(conn, prv, nil)
+	if err != nil {
+		return discover.NodeID{}, nil, err
+	}
+	return sec.RemoteID, newRLPXFrameRW(conn, sec), nil
+}
+
+// VerifInitiatorEncHandshake runs the dialing side of the encryption handshake.
+func VerifInitiatorEncHandshake(conn io.ReadWriter, prv *ecdsa.PrivateKey, remote discover.NodeID) (MsgReadWriter, error) {
+	sec, err := initiatorEncHandshake(conn, prv, remote, nil)
+	if err != nil {
+		return nil, err
+	}
+	return newRLPXFrameRW(conn, sec), nil
+}
+
+// VerifReadProtocolHandshake reads and validates the devp2p protocol handshake message
+// (readProtocolHandshake) from rw for a local handshake of base protocol version 4.
+func VerifReadProtocolHandshake(rw MsgReader) (name string, id discover.NodeID, err error) {
+	their, err := readProtocolHandshake(rw, &protoHandshake{Version: baseProtocolVersion})
+	if err != nil {
+		return "", discover.NodeID{}, err
+	}
+	return their.Name, their.ID, nil
+}
+
+// VerifNewPeer is NewPeer with observable Disconnect requests: a reason passed to
+// Peer.Disconnect is delivered on disc (Peer.run would close the connection on it). After
+// stop() Disconnect returns immediately, like for NewPeer.
+func VerifNewPeer(id discover.NodeID, name string, caps []Cap) (p *Peer, disc <-chan DiscReason, stop func()) {
+	pipe, _ := net.Pipe()
+	c := &conn{fd: pipe, transport: nil, id: id, caps: caps, name: name}
+	p = newPeer(c, nil)
+	return p, p.disc, func() { close(p.closed) }
+}
